@@ -19,10 +19,11 @@ def run(ctx):
     metas = {}
     for k in range(ctx.budget(250, 6000)):
         sub = rng.fork('e%d' % k)
-        line, m = gen.gen_e2e(sub, 1000 + k, maxit_max=2, r_max=4, nmax=sub.choice([3, 6, 9]))
+        # prior contents of the output containers: zero, or garbage (the start must not depend on them)
+        line, m = gen.gen_e2e(sub, 1000 + k, maxit_max=2, r_max=4, nmax=sub.choice([3, 6, 9]), prior=('zero' if k % 2 else 'garbage'))
         cases.append(line)
         metas[1000 + k] = m
-    res = ctx.component('K-INIT', cases)
+    res = ctx.component('K-INIT', cases, keys={'status', 'start'})
     # reference streams from the implementation's own generator type, per seed
     n_eval = 0
     keys = set()
